@@ -59,15 +59,32 @@ Inductive res :=
 
 (* ---------------------------------------------------------------------------------------------- *)
 (* the read source (util/read_compressed.cc) *)
+(* what one read() system call can do: deliver bytes (the environment picks how many: between 1 and the amount asked for
+   while data remain), or be interrupted by a signal before anything arrived (-1 / EINTR) *)
+Inductive outcome := Bytes (n : nat) | Interrupted.
+Definition oracle := list outcome.          (* outcomes of the next read() calls; [] = full reads from then on *)
+
 Record src := mk_src { s_hdr : list N;        (* UncompressedWithHeader: header bytes not yet handed out *)
                        s_data : list N;       (* bytes the descriptor / decompressor will still deliver *)
-                       s_oracle : list nat }. (* lengths offered by the next read() calls; [] = full reads *)
+                       s_oracle : oracle }.   (* outcomes of the next read() calls *)
 Definition src_rest (s : src) : list N := s_hdr s ++ s_data s.
 
-(* PartialRead: one read(); the environment returns between 1 and amt bytes while data remain *)
-Definition partial_read (amt : nat) (data : list N) (o : list nat) : list N * list N * list nat :=
-  let '(c, o') := match o with [] => (amt, []) | c :: o' => (Nat.min amt (Nat.max 1 c), o') end in
-  (firstn c data, skipn c data, o').
+(* util::PartialRead:  do { ret = read(fd, to, amount); } while (ret == -1 && errno == EINTR);   an interrupted call is
+   retried, it is never reported as "0 bytes" (which every caller takes for end of input) *)
+Fixpoint partial_read (amt : nat) (data : list N) (o : oracle) : list N * list N * oracle :=
+  match o with
+  | [] => (firstn amt data, skipn amt data, [])
+  | Interrupted :: r => partial_read amt data r
+  | Bytes c :: r => let n := Nat.min amt (Nat.max 1 c) in (firstn n data, skipn n data, r)
+  end.
+
+(* the same oracle without the interruptions *)
+Fixpoint strip_interrupts (o : oracle) : oracle :=
+  match o with
+  | [] => []
+  | Interrupted :: r => strip_interrupts r
+  | Bytes c :: r => Bytes c :: strip_interrupts r
+  end.
 
 Definition src_read (amt : nat) (s : src) : list N * src :=
   match s_hdr s with
@@ -78,7 +95,7 @@ Definition src_read (amt : nat) (s : src) : list N * src :=
 
 (* util::ReadOrEOF(fd, to, amount): repeat PartialRead until amount bytes or a 0 return.  Every round
    delivers at least one byte, so `amount` rounds always suffice (Proofs: read_or_eof_complete). *)
-Fixpoint read_or_eof_loop (fuel amt : nat) (data : list N) (o : list nat) : list N * list N * list nat :=
+Fixpoint read_or_eof_loop (fuel amt : nat) (data : list N) (o : oracle) : list N * list N * oracle :=
   match fuel with
   | 0 => ([], data, o)
   | S f =>
@@ -95,10 +112,10 @@ Definition read_or_eof (amt : nat) := read_or_eof_loop amt amt.
 
 Definition kMagicSize : nat := 6.
 (* ReadFactory on an uncompressed descriptor: read the 6 byte header, then serve it first *)
-Definition open_fd (data : list N) (o : list nat) : src :=
+Definition open_fd (data : list N) (o : oracle) : src :=
   let '(h, d, o') := read_or_eof kMagicSize data o in mk_src h d o'.
 (* IStreamReader / a decompressor chain: no header, the oracle stands for the sizes it happens to return *)
-Definition open_stream (data : list N) (o : list nat) : src := mk_src [] data o.
+Definition open_stream (data : list N) (o : oracle) : src := mk_src [] data o.
 
 (* ---------------------------------------------------------------------------------------------- *)
 (* FilePiece *)
@@ -443,23 +460,23 @@ Section Variant.
 
   (* ------------------------------------------------------------------------------------------ *)
   (* constructors *)
-  Definition init_common (P min_buffer : nat) (data : list N) (chunks : list nat) : fp :=
+  Definition init_common (P min_buffer : nat) (data : list N) (chunks : oracle) : fp :=
     mk_fp [] 0 0 0 (P * Nat.max (min_buffer / P + 1) 2) false false false P data (mk_src [] [] chunks) (S (S (length data))).
 
   (* FilePiece(name) / FilePiece(fd) on a regular uncompressed file: Initialize, mmap backend, first Shift *)
-  Definition init_file (P min_buffer : nat) (data : list N) (chunks : list nat) : option fp :=
+  Definition init_file (P min_buffer : nat) (data : list N) (chunks : oracle) : option fp :=
     shift (init_common P min_buffer data chunks).
   (* FilePiece(fd) on a pipe: TransitionToRead, first Shift *)
-  Definition init_pipe (P min_buffer : nat) (data : list N) (chunks : list nat) : option fp :=
+  Definition init_pipe (P min_buffer : nat) (data : list N) (chunks : oracle) : option fp :=
     shift (transition_to_read 0 (init_common P min_buffer data chunks)).
   (* FilePiece(istream), and FilePiece on a compressed file right after the magic was detected: read backend,
      empty buffer, no Shift yet; `data` is what the stream / decompressor chain delivers *)
-  Definition init_stream (P min_buffer : nat) (data : list N) (chunks : list nat) : option fp :=
+  Definition init_stream (P min_buffer : nat) (data : list N) (chunks : oracle) : option fp :=
     let s := init_common P min_buffer data chunks in
     Some (mk_fp [] 0 0 0 (dms s) false true true P data (open_stream data chunks) (fuel s)).
   (* FilePiece(fd) on a pipe that carries compressed data: TransitionToRead (ReadFactory finds the magic and installs the
      decompressor chain, whose output is `data`), then the first Shift *)
-  Definition init_pipe_stream (P min_buffer : nat) (data : list N) (chunks : list nat) : option fp :=
+  Definition init_pipe_stream (P min_buffer : nat) (data : list N) (chunks : oracle) : option fp :=
     let s := init_common P min_buffer data chunks in
     shift (mk_fp [] 0 0 0 (dms s) false true true P data (open_stream data chunks) (fuel s)).
   (* MMapShift when MapRead throws (mmap fails: ENODEV on file systems that cannot be mapped, EINVAL for the zero-length map
@@ -481,7 +498,7 @@ Section Variant.
   (* FilePiece(name) / FilePiece(fd) on a regular file whose first mmap fails: Initialize -> Shift -> MMapShift fails ->
      read backend from offset 0 (`data` is what read() delivers; for procfs total_size_ is 0 although data is not empty --
      the model does not need total_size_ on this path) *)
-  Definition init_file_nommap (P min_buffer : nat) (data : list N) (chunks : list nat) : option fp :=
+  Definition init_file_nommap (P min_buffer : nat) (data : list N) (chunks : oracle) : option fp :=
     let s0 := init_common P min_buffer data chunks in
     let s1 := mmap_shift_failed (pos s0 + mo s0) s0 in
     let s2 := read_shift s1 in
@@ -491,7 +508,7 @@ End Variant.
 Arguments LOk {A}. Arguments LEof {A}. Arguments LFuel {A}.
 
 Inductive backend := BFile | BPipe | BStream | BPipeStream | BFileNoMmap.
-Definition init (v : variant) (b : backend) (P min_buffer : nat) (data : list N) (chunks : list nat) : option fp :=
+Definition init (v : variant) (b : backend) (P min_buffer : nat) (data : list N) (chunks : oracle) : option fp :=
   match b with
   | BFile => init_file v P min_buffer data chunks
   | BPipe => init_pipe v P min_buffer data chunks
@@ -501,7 +518,7 @@ Definition init (v : variant) (b : backend) (P min_buffer : nat) (data : list N)
   end.
 
 (* what the drivers print for one case: None when the constructor threw end of file (it cannot) *)
-Definition transcript (v : variant) (b : backend) (P min_buffer : nat) (data : list N) (chunks : list nat)
+Definition transcript (v : variant) (b : backend) (P min_buffer : nat) (data : list N) (chunks : oracle)
            (ops : list op) : option (list (res * nat)) :=
   match init v b P min_buffer data chunks with
   | None => None
